@@ -1,10 +1,13 @@
 import BSModel.Proofs.SourcePos
+import BSModel.Props.TK
 /-! # C18 — sourceline/sourcepos give each tag's true position in the input
 
 (1) bs4 passes the tokenizer's position through unchanged on every path, and stores nothing when
 `store_line_numbers` is off; (2) the position arithmetic of CPython's `updatepos`, for ANY way the tokenizer may
-cut the consumed text into chunks, is the 1-based line / 0-based column of the offset. That the tokenizer calls
-`updatepos` with exactly the consumed text is recorded by the harness, not proved. -/
+cut the consumed text into chunks, is the 1-based line / 0-based column of the offset; (3) composed with the model of
+CPython's tokenizer (`Model/Tokenizer.lean`, theorems in `Props/TK.lean`, tied to the real `html.parser` by the
+"tokenizer-model" stream): for EVERY text, the positions stored for the tags are the line/column of the offsets at which
+their start tags' `<` stand. -/
 namespace BS.Props.C18
 open BS.Adapter BS.Builder BS.SourcePos
 
@@ -72,5 +75,37 @@ theorem lineCol_spec (a b : PStr) (hb : b.count 10 = 0) :
 
 example : lineCol (BS.ofS "ab\ncd<e>") 5 = (2, 2) := by decide
 example : posAfter [BS.ofS "ab", BS.ofS "\nc", BS.ofS "d"] = (2, 2) := by decide
+
+
+/-! ### composed with the tokenizer model: positions are those of the `<` in the parsed text -/
+section Tokenized
+open BS.Tokenizer
+
+/-- **every tag's stored position is the line/column of its start tag's `<`, for every text.** Tokenize `text` as
+    `feed(text); close()` does (`BS.Tokenizer.run`, any `html.unescape`/`str.lower`), hand the callbacks to the adapter:
+    the positions stored for the created tags, in order, are `lineCol text o` (1-based line, 0-based column) for the
+    offsets `o` of the start-tag chunks (`none` for all with `store_line_numbers` off) — and at each such offset the
+    text has a `<`. Composition of `BS.Props.TK.start_positions_are_offsets` (the tokenizer's position invariant) with
+    `pos_pass_through`. -/
+theorem start_tag_positions_are_offsets_tokenized (cfg : ACfg) (P : Params) (text : PStr) :
+    ((toEvents cfg (callbacks (run P text))).2.map (·.pos)) =
+        (startOffsets 0 (run P text).evs).map (fun o => if cfg.storeLines then some (lineCol text o) else none) ∧
+      ∀ o ∈ startOffsets 0 (run P text).evs, text[o]? = some 60 := by
+  obtain ⟨h1, h2⟩ := BS.Props.TK.start_positions_are_offsets P text
+  refine ⟨?_, h2⟩
+  rw [pos_pass_through, h1, List.map_map]
+  rfl
+
+/-- one stored position per start tag the tokenizer reports -/
+theorem one_info_per_start_tag_tokenized (cfg : ACfg) (P : Params) (text : PStr) :
+    (toEvents cfg (callbacks (run P text))).2.length = (startOffsets 0 (run P text).evs).length := by
+  have := congrArg List.length (start_tag_positions_are_offsets_tokenized cfg P text).1
+  simpa using this
+
+/-- non-vacuity: `"ab\n <p id=x>c</p>"` — one tag, its `<` at offset 4 = line 2, column 1 -/
+example : startOffsets 0 (run BS.Props.TK.P0 (BS.ofS "ab\n <p id=x>c</p>")).evs = [4]
+    ∧ lineCol (BS.ofS "ab\n <p id=x>c</p>") 4 = (2, 1) := by decide
+
+end Tokenized
 
 end BS.Props.C18
